@@ -61,6 +61,12 @@ _INT_RANGE = {"u8": (0, 2**8 - 1), "u16": (0, 2**16 - 1), "u32": (0, 2**32 - 1),
               "i32": (-2**31, 2**31 - 1), "i64": (-2**63, 2**63 - 1), "i128": (-2**127, 2**127 - 1),
               "isize": (-2**63, 2**63 - 1)}
 
+# Expansion budget of symbolic values, counted in local-definition hops.  It is deliberately far above what any expression in
+# the analysed crates needs: with a small budget two expansions of the *same* value that start from different temporaries
+# (e.g. after a `let` binding was introduced) are cut at different points and stop being structurally equal, which made
+# dominating guards unrecognisable after behaviour-preserving edits.
+SYM_DEPTH = 40
+
 # ---------------------------------------------------------------- function wrapper
 
 class Fn:
@@ -286,7 +292,7 @@ class Fn:
         return self.locals[l].get("name")
 
     # -- symbolic expression of an operand / place
-    def sym_operand(self, o, depth=12):
+    def sym_operand(self, o, depth=SYM_DEPTH):
         c = o.get("k")
         if c is not None:
             if "v" in c:
@@ -299,7 +305,7 @@ class Fn:
             return ("unknown",)
         return self.sym_place(p, depth)
 
-    def sym_place(self, p, depth=12):
+    def sym_place(self, p, depth=SYM_DEPTH):
         l = pl_local(p)
         base = self.sym_local(l, depth)
         for e in pl_proj(p):
@@ -326,7 +332,7 @@ class Fn:
                 base = (k, base)
         return base
 
-    def sym_local(self, l, depth=12):
+    def sym_local(self, l, depth=SYM_DEPTH):
         if 1 <= l <= self.argc and self.is_stable_param(l):
             return ("param", l, self.local_name(l))
         if depth <= 0:
@@ -376,7 +382,7 @@ class Fn:
         return ("other", rv.get("s", k))
 
     # -- memory reads behind a value (for kill checks)
-    def leaf_reads(self, o, depth=12):
+    def leaf_reads(self, o, depth=SYM_DEPTH):
         """List of (place_sym, (bb, si)) for every memory place read while computing operand `o`
         (places with projections, parameters, multi-def locals).  si=None for block entry."""
         out = []
